@@ -16,6 +16,7 @@ package raft
 import (
 	"fmt"
 	"io"
+	"time"
 	"os"
 	"sort"
 	"strings"
@@ -23,6 +24,7 @@ import (
 
 	"google.golang.org/protobuf/proto"
 	log "github.com/hashicorp/go-hclog"
+	raftchunking "github.com/hashicorp/go-raftchunking"
 	"github.com/hashicorp/raft"
 	"github.com/openbao/openbao/sdk/v2/helper/verif/kvc"
 	"github.com/openbao/openbao/sdk/v2/helper/verif/vout"
@@ -48,13 +50,73 @@ type c09Entry struct {
 	Reads  []string   `json:"reads,omitempty"`
 	Lists  []c09List  `json:"lists,omitempty"`
 	Writes []c09Write `json:"writes"`
+	// Chunk: 0 = an ordinary (unchunked) entry; 1 = this log position carries
+	// the FIRST chunk of the entry described here (the entry takes effect at the
+	// position of its final chunk); 2 = this position carries the FINAL chunk of
+	// the most recent Chunk==1 entry before it; 3 = a leadership change: this
+	// position holds the new leader's no-op entry (raft never hands it to the
+	// state machine), every later entry carries the next term, and a chunked
+	// entry still open is abandoned (its remaining chunks never arrive).
+	Chunk int `json:"chunk,omitempty"`
 }
 
 func (e c09Entry) String() string {
-	if !e.Txn {
-		return e.Name
+	n := e.Name
+	if e.Txn {
+		n = fmt.Sprintf("%s@%d", e.Name, e.Start)
 	}
-	return fmt.Sprintf("%s@%d", e.Name, e.Start)
+	switch e.Chunk {
+	case 1:
+		return "chunk0of[" + n + "]"
+	case 2:
+		return "finalchunk"
+	case 3:
+		return "newterm"
+	}
+	return n
+}
+
+// c09StoredChunks simulates the chunk bookkeeping of a replica that applies lg
+// straight through: a chunk is stored under its term, storing a chunk drops
+// the chunks of other terms, completing an entry removes its chunks.
+func c09StoredChunks(lg []c09Entry) int {
+	term := 1
+	var stored []int // terms of stored chunks
+	for _, e := range lg {
+		switch e.Chunk {
+		case 3:
+			term++
+		case 1, 2:
+			keep := stored[:0]
+			for _, t := range stored {
+				if t == term {
+					keep = append(keep, t)
+				}
+			}
+			stored = keep
+			if e.Chunk == 1 {
+				stored = append(stored, term)
+			} else {
+				stored = stored[:0] // the completed entry's chunks (the only ones of this term)
+			}
+		}
+	}
+	return len(stored)
+}
+
+// c09Open returns the position (0-based) of the chunked entry whose final
+// chunk has not been seen in lg, or -1.
+func c09Open(lg []c09Entry) int {
+	open := -1
+	for i, e := range lg {
+		switch e.Chunk {
+		case 1:
+			open = i
+		case 2, 3:
+			open = -1
+		}
+	}
+	return open
 }
 
 type c09Replay struct {
@@ -87,9 +149,28 @@ func dumpState(s map[string]string) string {
 func c09Reference(lg []c09Entry) ([]map[string]string, []bool) {
 	states := []map[string]string{{}}
 	verdicts := make([]bool, len(lg))
+	open := -1
 	for i, e := range lg {
 		cur := cloneState(states[i])
 		conflict := false
+		if e.Chunk == 1 {
+			// first chunk: stored, nothing applied, no verdict
+			open = i
+			states = append(states, cur)
+			continue
+		}
+		if e.Chunk == 3 {
+			// leadership change: nothing reaches the state machine, an open
+			// chunked entry is abandoned
+			open = -1
+			states = append(states, cur)
+			continue
+		}
+		if e.Chunk == 2 {
+			// final chunk: the reassembled entry is applied here
+			e = lg[open]
+			open = -1
+		}
 		if e.Txn {
 			at := states[e.Start]
 			for _, r := range e.Reads {
@@ -125,15 +206,53 @@ func c09Reference(lg []c09Entry) ([]map[string]string, []bool) {
 }
 
 // c09Encode builds the raft.Log entries an honest leader would have shipped.
+// An entry with Chunk==1 is marshalled like any other and then split into two
+// chunks by the real raftchunking.ChunkingApply (with the package's chunk size
+// lowered so that the small command splits in two); its second chunk is placed
+// at the position of the following Chunk==2 marker (if the log has one).
 func c09Encode(lg []c09Entry, states []map[string]string) ([]*raft.Log, error) {
 	out := make([]*raft.Log, len(lg))
+	// position of the final chunk of the chunked entry starting at i (len(lg) = never)
+	finalOf := func(i int) int {
+		for j := i + 1; j < len(lg); j++ {
+			if lg[j].Chunk == 2 || lg[j].Chunk == 3 {
+				return j // applied, or abandoned with its leader
+			}
+		}
+		return len(lg)
+	}
+	term := uint64(1)
+	var pending [][]byte // chunk payload+extension pairs of the open chunked entry
+	var pendingExt [][]byte
 	for i, e := range lg {
 		idx := uint64(i + 1)
+		if e.Chunk == 3 {
+			term++
+			pending, pendingExt = nil, nil
+			out[i] = &raft.Log{Index: idx, Term: term, Type: raft.LogNoop}
+			continue
+		}
+		if e.Chunk == 2 {
+			if len(pending) != 2 {
+				return nil, fmt.Errorf("final chunk at %d without an open chunked entry", i)
+			}
+			out[i] = &raft.Log{Index: idx, Term: term, Type: raft.LogCommand, Data: pending[1], Extensions: pendingExt[1]}
+			pending, pendingExt = nil, nil
+			continue
+		}
 		// honest lowest active index: min(applied index at propose time,
-		// start index of every other transaction open at that time)
+		// start index of every other transaction open at that time). A chunked
+		// transaction stays open until its final chunk has been applied.
 		lai := idx - 1
-		for j := i + 1; j < len(lg); j++ {
-			if lg[j].Txn && lg[j].Start <= idx-1 && lg[j].Start < lai {
+		for j := 0; j < len(lg); j++ {
+			if j == i || !lg[j].Txn || lg[j].Chunk >= 2 {
+				continue
+			}
+			end := j // position at which transaction j is applied
+			if lg[j].Chunk == 1 {
+				end = finalOf(j)
+			}
+			if end > i && lg[j].Start <= idx-1 && lg[j].Start < lai {
 				lai = lg[j].Start
 			}
 		}
@@ -179,7 +298,25 @@ func c09Encode(lg []c09Entry, states []map[string]string) ([]*raft.Log, error) {
 		if err != nil {
 			return nil, err
 		}
-		out[i] = &raft.Log{Index: idx, Term: 1, Type: raft.LogCommand, Data: b}
+		if e.Chunk == 0 {
+			out[i] = &raft.Log{Index: idx, Term: term, Type: raft.LogCommand, Data: b}
+			continue
+		}
+		// Chunk == 1: split with the production splitter
+		saved := raftchunking.ChunkSize
+		raftchunking.ChunkSize = (len(b) + 1) / 2
+		pending, pendingExt = nil, nil
+		fut := raftchunking.ChunkingApply(b, nil, 0, func(l raft.Log, _ time.Duration) raft.ApplyFuture {
+			pending = append(pending, l.Data)
+			pendingExt = append(pendingExt, l.Extensions)
+			return nil
+		})
+		raftchunking.ChunkSize = saved
+		_ = fut
+		if len(pending) != 2 {
+			return nil, fmt.Errorf("expected the command (%d bytes) to split into 2 chunks, got %d", len(b), len(pending))
+		}
+		out[i] = &raft.Log{Index: idx, Term: term, Type: raft.LogCommand, Data: pending[0], Extensions: pendingExt[0]}
 	}
 	return out, nil
 }
@@ -229,37 +366,95 @@ func (r *c09Replica) restart() error {
 	return nil
 }
 
-// apply feeds one batch and returns conflict verdicts per entry.
-func (r *c09Replica) apply(batch []*raft.Log) ([]bool, error) {
-	resp := r.fsm.ApplyBatch(batch)
+// apply feeds one batch (through the chunking wrapper, which is what raft is
+// given as its state machine in raft.go) and returns per entry: 0 = no verdict
+// (a stored, non-final chunk), 1 = applied, 2 = transaction conflict.
+func (r *c09Replica) apply(all []*raft.Log) ([]int, error) {
+	// raft hands only command (and configuration) entries to the state machine
+	var batch []*raft.Log
+	var pos []int
+	for i, l := range all {
+		if l.Type == raft.LogCommand {
+			batch = append(batch, l)
+			pos = append(pos, i)
+		}
+	}
+	res := make([]int, len(all))
+	if len(batch) == 0 {
+		return res, nil
+	}
+	out, err := r.applyCommands(batch)
+	if err != nil {
+		return nil, err
+	}
+	for j, v := range out {
+		res[pos[j]] = v
+	}
+	return res, nil
+}
+
+func (r *c09Replica) applyCommands(batch []*raft.Log) ([]int, error) {
+	resp := r.fsm.chunker.ApplyBatch(batch)
 	if len(resp) != len(batch) {
 		return nil, fmt.Errorf("ApplyBatch returned %d responses for %d logs", len(resp), len(batch))
 	}
-	out := make([]bool, len(batch))
+	out := make([]int, len(batch))
 	for i, x := range resp {
+		if x == nil && batch[i].Extensions != nil {
+			continue // stored chunk, nothing applied
+		}
+		if cs, isChunked := x.(raftchunking.ChunkingSuccess); isChunked {
+			x = cs.Response
+		}
 		ar, ok := x.(*FSMApplyResponse)
 		if !ok || !ar.Success {
-			return nil, fmt.Errorf("unexpected response %T", x)
+			return nil, fmt.Errorf("unexpected response %T %v", x, x)
 		}
+		out[i] = 1
 		for _, e := range ar.EntrySlice {
 			if e.IsTxError() {
-				out[i] = true
+				out[i] = 2
 			}
 		}
 	}
 	return out, nil
 }
 
-func (r *c09Replica) dump() (string, error) {
+// resumeIndex is where raft resumes feeding a replica after a restart or a
+// snapshot install: right after the index the state machine has persisted
+// (BoltSnapshotStore reports FSM.LatestState as the newest snapshot and
+// NoSnapshotRestoreOnStart is set, so raft's lastApplied starts there and the
+// log entries above it are applied again). Without chunked entries this is the
+// number of entries applied so far; a trailing non-final chunk does not advance
+// the persisted index and is therefore delivered again.
+func (r *c09Replica) resumeIndex(max int) (int, error) {
+	li, _ := r.fsm.LatestState()
+	if li == nil {
+		return 0, nil
+	}
+	if int(li.Index) > max {
+		return 0, fmt.Errorf("persisted index %d beyond the %d entries delivered", li.Index, max)
+	}
+	return int(li.Index), nil
+}
+
+// dump returns the user-visible content of the data bucket and, separately,
+// the number of chunk-bookkeeping keys (raftchunking/<op>/<seq>) it holds.
+func (r *c09Replica) dump() (string, int, error) {
 	var parts []string
+	chunks := 0
 	err := r.fsm.getDB().View(func(tx *bolt.Tx) error {
 		return tx.Bucket(dataBucketName).ForEach(func(k, v []byte) error {
+			if strings.HasPrefix(string(k), chunkingPrefix) {
+				chunks++
+				return nil
+			}
 			parts = append(parts, string(k)+"="+string(v))
 			return nil
 		})
 	})
 	sort.Strings(parts)
-	return strings.Join(parts, ","), err
+	return strings.Join(parts, ","), chunks, err
 }
 
 // installFrom performs a follower snapshot install: stream the donor's state
@@ -299,8 +494,9 @@ func (r *c09Replica) installFrom(donor *c09Replica) error {
 
 // ---- alphabet ---------------------------------------------------------------
 
-func c09Alphabet(pos int) []c09Entry {
+func c09Alphabet(prefix []c09Entry) []c09Entry {
 	// pos is the 1-based log index of the entry being chosen.
+	pos := len(prefix) + 1
 	plain := []c09Entry{
 		{Name: "put(a,1)", Writes: []c09Write{{"a", "1", false}}},
 		{Name: "put(a,2)", Writes: []c09Write{{"a", "2", false}}},
@@ -318,8 +514,38 @@ func c09Alphabet(pos int) []c09Entry {
 			c09Entry{Name: "txn{r(b) w(a,t2)}", Txn: true, Start: st, Reads: []string{"b"}, Writes: []c09Write{{"a", "t2", false}}},
 			c09Entry{Name: "txn{l(d/) w(d/y,t3)}", Txn: true, Start: st, Lists: []c09List{{"d/", "", -1}}, Writes: []c09Write{{"d/y", "t3", false}}},
 			c09Entry{Name: "txn{r(a) w(a,t4)}", Txn: true, Start: st, Reads: []string{"a"}, Writes: []c09Write{{"a", "t4", false}}},
-			c09Entry{Name: "txn{l() r(b) d(a)}", Txn: true, Start: st, Reads: []string{"b"}, Lists: []c09List{{"", "", 1}}, Writes: []c09Write{{"a", "", true}}},
 		)
+		// The chunk bookkeeping keys live in the data bucket (raftchunking/...),
+		// so a listing of the root taken while a chunked entry is open would
+		// contain them; the reference state does not model them, hence a
+		// root-listing transaction is only given start indexes at which no
+		// chunked entry is open (there the reference listing is what an honest
+		// leader ships).
+		if c09StoredChunks(prefix[:s]) == 0 {
+			out = append(out, c09Entry{Name: "txn{l() r(b) d(a)}", Txn: true, Start: st, Reads: []string{"b"}, Lists: []c09List{{"", "", 1}}, Writes: []c09Write{{"a", "", true}}})
+		}
+	}
+	// chunked entries (a command larger than the chunk size travels as several
+	// log entries; other clients' entries may land between them): at most one
+	// in flight. Either its final chunk, or - when none is open - the first
+	// chunk of a plain write or of a transaction with every start index.
+	bumped := false
+	for _, e := range prefix {
+		if e.Chunk == 3 {
+			bumped = true
+		}
+	}
+	if !bumped && len(prefix) >= 1 {
+		// one leadership change per log
+		out = append(out, c09Entry{Name: "newterm", Chunk: 3})
+	}
+	if c09Open(prefix) >= 0 {
+		out = append(out, c09Entry{Name: "final", Chunk: 2})
+	} else {
+		out = append(out, c09Entry{Name: "put(a,3)", Chunk: 1, Writes: []c09Write{{"a", "3", false}}})
+		for s := pos - 1; s >= 0; s-- {
+			out = append(out, c09Entry{Name: "txn{r(a) w(b,t5)}", Chunk: 1, Txn: true, Start: uint64(s), Reads: []string{"a"}, Writes: []c09Write{{"b", "t5", false}}})
+		}
 	}
 	return out
 }
@@ -348,14 +574,12 @@ func c09Partitions(n int) [][]int {
 // It returns "" when everything agrees.
 func c09RunVariant(lg []c09Entry, logs []*raft.Log, states []map[string]string, refV []bool, rp c09Replay) (string, error) {
 	n := len(lg)
-	got := make([]int, n) // 0 = not observed, 1 = ok, 2 = conflict
-	rec := func(from int, v []bool) {
+	got := make([]int, n) // 0 = no verdict observed, 1 = ok, 2 = conflict
+	seen := make([]bool, n)
+	rec := func(from int, v []int) {
 		for i, c := range v {
-			if c {
-				got[from+i] = 2
-			} else {
-				got[from+i] = 1
-			}
+			got[from+i] = c
+			seen[from+i] = true
 		}
 	}
 	r, err := c09NewReplica()
@@ -363,6 +587,16 @@ func c09RunVariant(lg []c09Entry, logs []*raft.Log, states []map[string]string, 
 		return "", err
 	}
 	defer func() { r.destroy() }()
+	oneByOne := func(from, to int) error {
+		for i := from; i < to; i++ {
+			v, err := r.apply(logs[i : i+1])
+			if err != nil {
+				return err
+			}
+			rec(i, v)
+		}
+		return nil
+	}
 	switch rp.Variant {
 	case "batch":
 		p := 0
@@ -375,30 +609,26 @@ func c09RunVariant(lg []c09Entry, logs []*raft.Log, states []map[string]string, 
 			p += sz
 		}
 	case "restart", "restart-batchrest":
-		for i := 0; i < rp.Pos; i++ {
-			v, err := r.apply(logs[i : i+1])
-			if err != nil {
-				return "", err
-			}
-			rec(i, v)
+		if err := oneByOne(0, rp.Pos); err != nil {
+			return "", err
 		}
 		if err := r.restart(); err != nil {
 			return "", err
 		}
+		from, err := r.resumeIndex(rp.Pos)
+		if err != nil {
+			return "", err
+		}
 		if rp.Variant == "restart" {
-			for i := rp.Pos; i < n; i++ {
-				v, err := r.apply(logs[i : i+1])
-				if err != nil {
-					return "", err
-				}
-				rec(i, v)
+			if err := oneByOne(from, n); err != nil {
+				return "", err
 			}
 		} else {
-			v, err := r.apply(logs[rp.Pos:])
+			v, err := r.apply(logs[from:])
 			if err != nil {
 				return "", err
 			}
-			rec(rp.Pos, v)
+			rec(from, v)
 		}
 	case "snapshot":
 		donor, err := c09NewReplica()
@@ -411,56 +641,104 @@ func c09RunVariant(lg []c09Entry, logs []*raft.Log, states []map[string]string, 
 				return "", err
 			}
 		}
-		for i := 0; i < rp.Had; i++ {
-			v, err := r.apply(logs[i : i+1])
-			if err != nil {
-				return "", err
-			}
-			rec(i, v)
+		if err := oneByOne(0, rp.Had); err != nil {
+			return "", err
 		}
 		if err := r.installFrom(donor); err != nil {
 			return "", fmt.Errorf("snapshot install: %w", err)
 		}
-		for i := rp.Pos; i < n; i++ {
-			v, err := r.apply(logs[i : i+1])
-			if err != nil {
-				return "", err
-			}
-			rec(i, v)
+		from, err := r.resumeIndex(rp.Pos)
+		if err != nil {
+			return "", err
+		}
+		if err := oneByOne(from, n); err != nil {
+			return "", err
 		}
 	default:
 		return "", fmt.Errorf("unknown variant %q", rp.Variant)
 	}
+	w := map[int]string{0: "none (entry not applied)", 1: "commit", 2: "conflict"}
 	for i := range lg {
-		if got[i] == 0 {
+		if !seen[i] {
 			continue
 		}
 		want := 1
 		if refV[i] {
 			want = 2
 		}
+		if lg[i].Chunk == 1 || lg[i].Chunk == 3 {
+			want = 0
+		}
 		if got[i] != want {
-			w := map[int]string{1: "commit", 2: "conflict"}
 			return fmt.Sprintf("entry %d (%s): replica verdict %s, reference (and a replica applying the log straight through must agree) %s", i+1, lg[i], w[got[i]], w[want]), nil
 		}
 	}
-	d, err := r.dump()
+	d, nchunks, err := r.dump()
 	if err != nil {
 		return "", err
 	}
 	if want := dumpState(states[n]); d != want {
 		return fmt.Sprintf("final data bucket {%s}, reference {%s}", d, want), nil
 	}
+	// chunk bookkeeping: the first chunk of a still-open chunked entry, or of
+	// one abandoned at a leadership change until a chunk of the new term arrives
+	wantChunks := c09StoredChunks(lg)
+	if nchunks != wantChunks {
+		return fmt.Sprintf("chunk bookkeeping keys in the data bucket: %d, expected %d", nchunks, wantChunks), nil
+	}
+	// the persisted index is that of the last entry handed to the state
+	// machine proper (a stored non-final chunk is not)
+	wantIdx := 0
+	for i := range lg {
+		if lg[i].Chunk == 0 || lg[i].Chunk == 2 {
+			wantIdx = i + 1
+		}
+	}
 	li, _ := r.fsm.LatestState()
-	if li.Index != uint64(n) {
-		return fmt.Sprintf("latest index %d after applying %d entries", li.Index, n), nil
+	if li.Index != uint64(wantIdx) {
+		return fmt.Sprintf("latest index %d after applying %d entries (expected %d)", li.Index, n, wantIdx), nil
 	}
 	return "", nil
 }
 
+// c09RootListingOverChunk reports whether msg blames the verdict of a
+// transaction that lists the root prefix while the first chunk of a chunked
+// entry is stored in the data bucket at some point between the transaction's
+// start index and its own position (inclusive of a chunk delivered in the same
+// batch, i.e. at the next positions up to the end of the log).
+func c09RootListingOverChunk(lg []c09Entry, msg string) bool {
+	var at int
+	if _, err := fmt.Sscanf(msg, "entry %d ", &at); err != nil || at < 1 || at > len(lg) {
+		return false
+	}
+	e := lg[at-1]
+	root := false
+	for _, l := range e.Lists {
+		if l.Prefix == "" {
+			root = true
+		}
+	}
+	if !e.Txn || !root {
+		return false
+	}
+	for i := int(e.Start); i < len(lg); i++ {
+		if lg[i].Chunk == 1 {
+			return true
+		}
+	}
+	return false
+}
+
 func c09Sig(rp c09Replay, msg string) string {
+	if c09RootListingOverChunk(rp.Log, msg) {
+		return "c09:chunk-keys-visible-to-root-listing"
+	}
 	kind := "state"
-	if strings.Contains(msg, "verdict commit") {
+	if strings.Contains(msg, "verdict none") {
+		kind = "chunked-entry-never-applied"
+	} else if strings.Contains(msg, "chunk bookkeeping") {
+		kind = "chunk-residue"
+	} else if strings.Contains(msg, "verdict commit") {
 		kind = "commits-what-reference-rejects"
 	} else if strings.Contains(msg, "verdict conflict") {
 		kind = "rejects-what-reference-commits"
@@ -569,7 +847,7 @@ func TestVerifC09(t *testing.T) {
 		if len(prefix) == maxLen {
 			return
 		}
-		for _, e := range c09Alphabet(len(prefix) + 1) {
+		for _, e := range c09Alphabet(prefix) {
 			rec(append(prefix, e))
 		}
 	}
